@@ -172,14 +172,34 @@ func c02Diff(got, want c02Rec) string {
 
 // c02ComparePrefix compares the first len(want) records only (got is already
 // complete, so a shorter got is a missing record).
+// c02Collapse merges runs of consecutive syntax errors with the same position
+// into one: the statement promises positioned, non-fatal errors for a malformed
+// line, not how many (a benign change that reports one error per bad number of
+// a line fired here - false alarm corrected, DESIGN.md 9.5).
+func c02Collapse(recs []c02Rec) []c02Rec {
+	out := make([]c02Rec, 0, len(recs))
+	for _, r := range recs {
+		if n := len(out); n > 0 && r.kind == refread.KindError && out[n-1].kind == refread.KindError && out[n-1].file == r.file && out[n-1].line == r.line {
+			continue
+		}
+		out = append(out, r)
+	}
+	return out
+}
+
 func c02ComparePrefix(got, want []c02Rec) *kit.Fail {
+	got, want = c02Collapse(got), c02Collapse(want)
 	if len(got) > len(want) {
 		got = got[:len(want)]
 	}
-	return c02Compare(got, want)
+	return c02CompareRaw(got, want)
 }
 
 func c02Compare(got, want []c02Rec) *kit.Fail {
+	return c02CompareRaw(c02Collapse(got), c02Collapse(want))
+}
+
+func c02CompareRaw(got, want []c02Rec) *kit.Fail {
 	for i := 0; i < len(got) || i < len(want); i++ {
 		if i >= len(got) {
 			return kit.Failf("record-missing", "record #%d missing (got %d records, want %d); want %v", i, len(got), len(want), want[i])
@@ -514,6 +534,7 @@ func c02CheckFiles(c c02FilesCase) *kit.Fail {
 		var stats refread.Stats
 		tooLong := false
 		f := func() *kit.Fail {
+			gotC := c02Collapse(cl.got) // runs of errors at one position count once, on both sides
 			m := refread.New()
 			var want []c02Rec
 			var stats refread.Stats
@@ -551,7 +572,7 @@ func c02CheckFiles(c c02FilesCase) *kit.Fail {
 					// entry's records follow, up to the next change of file or
 					// restart of the line numbers
 					lastLine := 0
-					for _, g := range cl.got[min(len(want), len(cl.got)):] {
+					for _, g := range gotC[min(len(want), len(gotC)):] {
 						if g.file != e.path || g.line < lastLine {
 							break
 						}
@@ -572,8 +593,8 @@ func c02CheckFiles(c c02FilesCase) *kit.Fail {
 						break
 					}
 				}
-				want = append(want, c02Want(out.Records, e.path, map[string]string{".file": lab})...)
-				if f := c02ComparePrefix(cl.got, want); f != nil {
+				want = c02Collapse(append(want, c02Want(out.Records, e.path, map[string]string{".file": lab})...))
+				if f := c02ComparePrefix(gotC, want); f != nil {
 					return f
 				}
 				if out.Stopped {
@@ -587,7 +608,7 @@ func c02CheckFiles(c c02FilesCase) *kit.Fail {
 			if gotErr == nil && stopped {
 				return kit.Failf("record-missing", "Err()==nil although a file holds a line longer than %d bytes (or is missing)", lim)
 			}
-			if f := c02Compare(cl.got, want); f != nil {
+			if f := c02Compare(gotC, want); f != nil {
 				return f
 			}
 			if f := c02CheckUnits(fs.Units(), m.Units); f != nil {
@@ -647,6 +668,7 @@ func c02CheckReset(c c02FilesCase) *kit.Fail {
 			labels[string(kv.K)] = string(kv.V)
 		}
 		rd.Reset(strings.NewReader(text), name, init...)
+		entryStart := len(cl.got)
 		limit := len(text) + 8
 		n := 0
 		ranOut := false
@@ -670,18 +692,22 @@ func c02CheckReset(c c02FilesCase) *kit.Fail {
 		if ranOut {
 			err = rd.Err()
 		}
+		// A caller that abandons the file (StopAfter) has consumed the lines up
+		// to the one its last record came from - how many records a malformed
+		// line yields is not specified, so the consumed part is taken from the
+		// position of the last record delivered, not from a record count.
+		abandonedAt := 0
+		if !ranOut && p.StopAfter > 0 && len(cl.got) > entryStart {
+			abandonedAt = cl.got[len(cl.got)-1].line
+		}
 		// every line-length limit a conforming reader may have (see c02CheckText)
 		var first *kit.Fail
 		accepted := false
 		for _, lim := range refread.LineLimits(text) {
 			mc := m.Clone()
-			out := mc.Read(name, text, refread.Options{LineLimit: lim, MaxRecords: p.StopAfter})
+			out := mc.Read(name, text, refread.Options{LineLimit: lim, MaxLineNo: abandonedAt})
 			recs := out.Records
-			abandoned := false
-			if p.StopAfter > 0 && len(recs) > p.StopAfter {
-				recs = recs[:p.StopAfter]
-				abandoned = true
-			}
+			abandoned := abandonedAt > 0
 			wantNow := append(append([]c02Rec(nil), want...), c02Want(recs, name, labels)...)
 			f := func() *kit.Fail {
 				if err != nil && !out.Stopped {
@@ -689,6 +715,25 @@ func c02CheckReset(c c02FilesCase) *kit.Fail {
 				}
 				if ranOut && err == nil && out.Stopped {
 					return kit.Failf("record-missing", "entry #%d: Err()==nil although a line is longer than %d bytes", i, lim)
+				}
+				if abandoned {
+					// the records delivered are a prefix of what the consumed lines
+					// prescribe, complete for every line before the last one
+					g, w := c02Collapse(cl.got), c02Collapse(wantNow)
+					if len(g) > len(w) {
+						return kit.Failf("record-extra", "after entry #%d (%q), abandoned at line %d: %d records, the consumed lines prescribe %d", i, name, abandonedAt, len(g), len(w))
+					}
+					for k := len(g); k < len(w); k++ {
+						if w[k].line != abandonedAt || w[k].file != name {
+							return kit.Failf("record-missing", "after entry #%d (%q), abandoned at line %d: record %v of an earlier line was never delivered", i, name, abandonedAt, w[k])
+						}
+					}
+					if f := c02CompareRaw(g, w[:len(g)]); f != nil {
+						f.Msg = fmt.Sprintf("after entry #%d (%q): %s", i, name, f.Msg)
+						return f
+					}
+					wantNow = append([]c02Rec(nil), cl.got...) // continue from what was delivered
+					return c02CheckUnits(rd.Units(), mc.Units)
 				}
 				// compare eagerly so that the entry is named in the message
 				if f := c02Compare(cl.got, wantNow); f != nil {
